@@ -43,6 +43,28 @@ def sends_reachable(prog, f, depth=0, seen=None):
     return False
 
 
+def bin_update_unfiltered(prog, rep):
+    f = prog.func('yabgp.api.v1.send_bin_update')
+    bad = None
+    for n in ast.walk(f.node):
+        if isinstance(n, ast.Call) and src_of(n.func).startswith('re.') and any('bin' in src_of(a) for a in n.args):
+            bad = bad or n
+        if isinstance(n, ast.Call) and isinstance(n.func, ast.Name) and n.func.id == 'filter' and \
+                any('bin' in src_of(a) for a in n.args):
+            bad = bad or n
+        if isinstance(n, (ast.ListComp, ast.GeneratorExp)) and n.generators[0].ifs and \
+                'bin' in src_of(n.generators[0].iter):
+            bad = bad or n
+    key = 'bin-update-unfiltered'
+    if bad is not None:
+        rep.bad('R16.e', key, file=f.file, line=bad.lineno, func=f.qualname,
+                found='the posted hex text goes through %s: characters that are not hex are dropped and the remaining '
+                      'digits re-pair, so a damaged request is sent (and counted) as a different message instead of being '
+                      'refused by a2b_hex' % src_of(bad)[:70], expected='only blanks removed; anything else refused', key=key)
+    else:
+        rep.ok('R16.e', key, file=f.file, line=f.node.lineno)
+
+
 def check(prog, rep, tier):
     rep.rule('R16.a', 'every view registered under /peer/ carries auth.login_required directly inside '
                       'blueprint.route; the password callback returns the configured password only for the '
@@ -52,11 +74,14 @@ def check(prog, rep, tier):
     rep.rule('R16.d', 'what goes out is encoded as the session negotiated: the OPEN decoder stores the key four_bytes_as only '
                       'with the value True, because the protocol enables 4-octet AS encoding on its presence (shared '
                       'with C05 R05.e)')
+    rep.rule('R16.e', 'send_bin_update writes what was posted: the hex text of the human format is not passed through a filter '
+                      '(re.findall / re.sub / a character comprehension) that drops what is not hex instead of refusing it')
     rep.rule('R16.c', 'faithful send: between the request JSON and protocol.send_update the attribute dictionary is '
                       'only re-keyed, given the default LOCAL_PREF on iBGP and the recombined extended '
                       'communities; NLRI and withdraw pass unchanged; success is reported only from the send result')
     from .c05 import four_octet_flag_rule
     four_octet_flag_rule(prog, rep, 'R16.d')
+    bin_update_unfiltered(prog, rep)
     rep.assumptions += ['Flask routing/decorator semantics and Flask-HTTPAuth get_password semantics (trusted base); Flask-HTTPAuth does not authenticate OPTIONS requests',
                         'TOCTOU between the establishment gate and the send is not decided']
     m = prog.module(V1)
